@@ -120,6 +120,11 @@ def r11_1(q, R, spec):
 def _copy_and_single_write(R, rid, what, b, nz, cfg, env_extra=None):
     """names = copy of self; returned; exactly one assignment in the body. Returns (names_term, assign_node) or None."""
     res = U.result_term(nz)
+    if res and res[0] == "case" and res[2]:
+        # `let PAT = .. else { return Ok(names) }; ..; Ok(names)`: every alternative returns the same local
+        alts = set(a for _p, a in res[2])
+        if len(alts) == 1 and next(iter(alts))[0] == "local":
+            res = next(iter(alts))
     if not R.anchor(rid, "%s returns its working copy (a mutable local)" % what, bool(res) and res[0] == "local", b["sp"]):
         return None
     env0 = U.build_env(cfg["params"])
@@ -158,7 +163,8 @@ def r11_2(q, R, spec):
             R.inst(rid, "extend:value", rr == U.parse(_fill(se["value"], roles), env), sp=a["sp"], expect=U.show(U.parse(_fill(se["value"], roles), env)), got=U.show(rr),
                    detail="map(mappings, namespace, <source name = slot 0>, <current name in the namespace>)")
             conds = U.cond_terms(nz, b["body"], a)
-            R.inst(rid, "extend:only-when-named", conds == [("iflet", U.parse(se["condition"], env), True)], sp=a["sp"],
+            want_c = U.parse(se["condition"], env)
+            R.inst(rid, "extend:only-when-named", conds in ([("iflet", want_c, True)], [("letelse", want_c, True)]), sp=a["sp"],
                    expect="if let (src, Some(b)) = names.get_mut_with_src(namespace)?", got=U.show_conds(conds))
     # ---- get_mut_with_src
     sg = spec["get_mut_with_src"]
